@@ -96,7 +96,10 @@ Definition d_lohg (x : sx) : option (lohg nat nat) :=
   | _ => None
   end.
 Definition d_backend (x : sx) : option Backend :=
-  match x with Sy "vec" => Some VecBackend | Sy "adv" => Some AdvBackend | Sy "adv2" => Some Adv2Backend | _ => None end.
+  match x with Sy "vec" => Some VecBackend | Sy "adv" => Some AdvBackend | Sy "adv2" => Some Adv2Backend
+  (* "adv3": the harness' stateful back-end (choices change from call to call); it has no functional mirror, the model
+     runs some conforming back-end and only the specification verdict is used for these cases *)
+  | Sy "adv3" => Some AdvBackend | _ => None end.
 Definition d_range (x : sx) : option range :=
   match x with
   | L [Sy "full"] => Some RFull
